@@ -1488,6 +1488,13 @@ def register(PROPS):
                   'C11': (['Heuristic'], ['rs_score_from_value_eq', 'rs_evaluate_eq', 'rs_is_checkmate_eq']),
                   'C12': (['Fen'], ['rs_validate_rank_eq']),
                   'C15': (['Square'], ['rs_from_chars_eq'])}
+    # end-to-end corollaries at the process level (stdin text -> stdout text): Props/EndToEnd composes C12, C15, C13, C02, C07, C08, C16
+    e2e = {'C07': ['app_go_bestmove_legal', 'app_run_go_bestmove_legal', 'app_go_bestmove_legal_after_moves'],
+           'C08': ['app_go_depth_reports_minimax', 'infoLine_projected'],
+           'C16': ['app_position_fen_sets_board', 'app_go_depth_reports_minimax', 'app_go_bestmove_legal', 'app_position_moves']}
+    for pid, thms in e2e.items():
+        PROPS[pid]['modules'] = list(PROPS[pid]['modules']) + ['Inkayaku.Props.EndToEnd']
+        PROPS[pid]['theorems'] = list(PROPS[pid]['theorems']) + ['Inkayaku.EndToEnd.' + t for t in thms]
     for pid, (mods, thms) in translated.items():
         PROPS[pid]['modules'] = list(PROPS[pid]['modules']) + ['Inkayaku.Props.Translated.' + m for m in mods]
         PROPS[pid]['theorems'] = list(PROPS[pid]['theorems']) + ['Inkayaku.Translated.' + t for t in thms]
